@@ -38,6 +38,8 @@ var fnWhitelist = map[string][]string{
 		"Export.isRevoked", "Export.IsClaimRevoked", "Export.RevokeAt", "Export.Revoke", "Export.ClearRevocation",
 		"NatsLimits.IsUnlimited", "JetStreamLimits.IsUnlimited", "UserLimits.IsUnlimited", "Limits.IsUnlimited",
 		"WeightedMapping.GetWeight",
+		"ServiceLatency.Validate", "Export.IsService", "Export.IsStream", "Export.IsSingleResponse", "Export.IsChunkedResponse", "Export.IsStreamResponse",
+		"Export.Validate", "isContainedIn", "Exports.Validate", "Exports.HasExportContainingSubject", "Mapping.Validate",
 	},
 	"V1": {
 		"Subject.HasWildCards", "Subject.IsContainedIn", "cleanSubject",
@@ -59,8 +61,11 @@ type fnInfo struct {
 	mutated  []bool       // per param: is it written through (pointer receiver / map) -> returned
 	results  []types.Type
 	usesNow  bool
+	usesOpq  bool // calls (transitively) a function that is kept opaque
+	sig      *types.Signature
+	hasRecv  bool
 	retType  string                // Lean type inside Option
-	optPtr   map[types.Object]bool // pointer parameters compared with nil in the body: Option T
+	optPtr   map[types.Object]bool // pointer parameters / receivers compared with nil in the body: Option T
 }
 
 type fnGen struct {
@@ -71,6 +76,8 @@ type fnGen struct {
 	order   []string
 	out     strings.Builder
 	unsupp  map[string]string
+	opaque  map[string]*types.Func // package functions called but deliberately not translated: fields of `Opq`
+	opqOrd  []string
 }
 
 type fnCtx struct {
@@ -84,6 +91,9 @@ type fnCtx struct {
 	state    []types.Object // loop-carried variables of the innermost loop being translated
 	tmpN     int
 	declared map[types.Object]bool // declared so far in the current def (for `let mut` vs `:=`)
+	rawPtr   map[string]bool       // terms that are pure values of type `Option T` (nilable pointers)
+	ptrInner map[string]string     // nilable pointers reached through a computation: the `Option T` value inside a do block
+	nilVars  map[types.Object]bool // local / range variables holding nilable pointers
 }
 
 func (g *fnGen) leanType(t types.Type) string {
@@ -116,6 +126,9 @@ func (g *fnGen) leanType(t types.Type) string {
 	case *types.Pointer:
 		return g.leanType(u.Elem())
 	case *types.Slice:
+		if g.nilableElem(u.Elem()) {
+			return "(List (Option " + g.leanType(u.Elem()) + "))"
+		}
 		return "(List " + g.leanType(u.Elem()) + ")"
 	case *types.Map:
 		return "(GoMap " + g.leanType(u.Key()) + " " + g.leanType(u.Elem()) + ")"
@@ -129,6 +142,48 @@ func (g *fnGen) leanType(t types.Type) string {
 	}
 	unsup("type %s", t.String())
 	return ""
+}
+
+// nilableElems: slice element types that decoded JSON can make nil (`[]*Export`, `[]*Import`)
+var nilableElems = map[string]bool{"Export": true, "Import": true}
+
+// opaqueFns: package functions that translated code may call but that stay outside the translation (their behaviour
+// is a parameter of the translated caller: a field of the generated structure `Opq`)
+var opaqueFns = map[string]bool{"Info.Validate": true}
+
+func ptrToStruct(t types.Type) (*types.Named, bool) {
+	pt, ok := t.Underlying().(*types.Pointer)
+	if !ok {
+		return nil, false
+	}
+	n, ok := pt.Elem().(*types.Named)
+	if !ok {
+		return nil, false
+	}
+	_, isStruct := n.Underlying().(*types.Struct)
+	return n, isStruct
+}
+
+func (g *fnGen) nilableElem(t types.Type) bool {
+	n, ok := ptrToStruct(t)
+	return ok && n.Obj().Pkg() == g.p.Types && nilableElems[n.Obj().Name()]
+}
+
+// nilableField: a pointer-to-struct field that JSON decoding can leave nil (it carries a json tag)
+func nilableField(st *types.Struct, i int) bool {
+	if _, ok := ptrToStruct(st.Field(i).Type()); !ok {
+		return false
+	}
+	return reflect.StructTag(st.Tag(i)).Get("json") != ""
+}
+
+// fieldLean: Lean type and default of field i of a mirrored struct ("" = outside the subset, dropped)
+func (g *fnGen) fieldLean(st *types.Struct, i int) (lt, z string) {
+	lt, z = safeType(g, st.Field(i).Type())
+	if lt != "" && nilableField(st, i) {
+		return "(Option " + lt + ")", "none"
+	}
+	return
 }
 
 func (g *fnGen) needStruct(name string, st *types.Struct) {
@@ -169,9 +224,7 @@ func (g *fnGen) nilCompared(fd *ast.FuncDecl, params []*types.Var, hasRecv bool)
 	res := map[types.Object]bool{}
 	cand := map[types.Object]bool{}
 	for i, p := range params {
-		if hasRecv && i == 0 {
-			continue
-		}
+		_ = i
 		if pt, ok := p.Type().Underlying().(*types.Pointer); ok {
 			if _, ok := pt.Elem().Underlying().(*types.Struct); ok {
 				cand[p] = true
@@ -195,6 +248,15 @@ func (g *fnGen) nilCompared(fd *ast.FuncDecl, params []*types.Var, hasRecv bool)
 		return true
 	})
 	return res
+}
+
+// varType: Lean type of a variable (nilable pointers are `Option T`)
+func (c *fnCtx) varType(o types.Object) string {
+	lt := c.g.leanType(o.Type())
+	if c.fi.optPtr[o] || c.nilVars[o] {
+		return "(Option " + lt + ")"
+	}
+	return lt
 }
 
 func (c *fnCtx) paramType(p *types.Var) string {
@@ -276,11 +338,107 @@ func (g *fnGen) callee(call *ast.CallExpr) *fnInfo {
 		return nil
 	}
 	for _, fi := range g.fns {
-		if g.p.TypesInfo.Defs[fi.fd.Name] == fn {
+		if fi.fd != nil && g.p.TypesInfo.Defs[fi.fd.Name] == fn {
 			return fi
 		}
 	}
+	if key, ofn := g.opaqueCallee(call); ofn != nil {
+		return g.opaqueInfo(key, ofn)
+	}
 	return nil
+}
+
+// opaqueInfo: the pseudo function info of an opaque callee: pointer-to-struct parameters are taken to be written
+// through (and returned), the receiver to be read only
+func (g *fnGen) opaqueInfo(key string, fn *types.Func) *fnInfo {
+	if g.opaque == nil {
+		g.opaque = map[string]*types.Func{}
+	}
+	if _, ok := g.opaque[key]; !ok {
+		g.opaque[key] = fn
+		g.opqOrd = append(g.opqOrd, key)
+	}
+	fi := g.opaqueInfoOf(fn)
+	fi.key = key
+	fi.leanName = "opq." + strings.ReplaceAll(key, ".", "_")
+	return fi
+}
+
+func (g *fnGen) opaqueInfoOf(fn *types.Func) *fnInfo {
+	key := ""
+	sig := fn.Type().(*types.Signature)
+	fi := &fnInfo{key: key, leanName: "opq." + strings.ReplaceAll(key, ".", "_"), sig: sig, hasRecv: sig.Recv() != nil, optPtr: map[types.Object]bool{}}
+	if sig.Recv() != nil {
+		fi.params = append(fi.params, sig.Recv())
+		fi.mutated = append(fi.mutated, false)
+	}
+	for i := 0; i < sig.Params().Len(); i++ {
+		p := sig.Params().At(i)
+		fi.params = append(fi.params, p)
+		_, isPtr := ptrToStruct(p.Type())
+		fi.mutated = append(fi.mutated, isPtr)
+	}
+	for i := 0; i < sig.Results().Len(); i++ {
+		fi.results = append(fi.results, sig.Results().At(i).Type())
+	}
+	return fi
+}
+
+// opqFieldType: the type of the `Opq` field of an opaque callee
+func (g *fnGen) opqFieldType(fn *types.Func) string {
+	fi := g.opaqueInfoOf(fn)
+	var ps, rs []string
+	for _, p := range fi.params {
+		ps = append(ps, g.leanType(p.Type()))
+	}
+	for i, m := range fi.mutated {
+		if m {
+			rs = append(rs, g.leanType(fi.params[i].Type()))
+		}
+	}
+	for _, r := range fi.results {
+		rs = append(rs, g.leanType(r))
+	}
+	ret := "Unit"
+	if len(rs) == 1 {
+		ret = rs[0]
+	} else if len(rs) > 1 {
+		ret = "(" + strings.Join(rs, " × ") + ")"
+	}
+	return strings.Join(append(ps, "Option "+ret), " → ")
+}
+
+// opaqueCallee: a call to a package function that is deliberately kept outside the translation
+func (g *fnGen) opaqueCallee(call *ast.CallExpr) (string, *types.Func) {
+	var obj types.Object
+	switch f := call.Fun.(type) {
+	case *ast.Ident:
+		obj = g.p.TypesInfo.Uses[f]
+	case *ast.SelectorExpr:
+		if sel, ok := g.p.TypesInfo.Selections[f]; ok {
+			obj = sel.Obj()
+		} else {
+			obj = g.p.TypesInfo.Uses[f.Sel]
+		}
+	}
+	fn, ok := obj.(*types.Func)
+	if !ok || fn.Pkg() != g.p.Types {
+		return "", nil
+	}
+	key := fn.Name()
+	if r := fn.Type().(*types.Signature).Recv(); r != nil {
+		t := r.Type()
+		if p, ok := t.(*types.Pointer); ok {
+			t = p.Elem()
+		}
+		if n, ok := t.(*types.Named); ok {
+			key = n.Obj().Name() + "." + fn.Name()
+		}
+	}
+	if !opaqueFns[key] {
+		return "", nil
+	}
+	return key, fn
 }
 
 // written: objects assigned / mutated (through pointer, map store, delete, mutating call) inside node n
@@ -331,7 +489,7 @@ func (c *fnCtx) written(n ast.Node) map[types.Object]bool {
 // callArgs: receiver (if any) followed by the arguments
 func (c *fnCtx) callArgs(call *ast.CallExpr, fi *fnInfo) []ast.Expr {
 	var args []ast.Expr
-	if fi.fd.Recv != nil {
+	if fi.hasRecv {
 		if se, ok := call.Fun.(*ast.SelectorExpr); ok {
 			args = append(args, se.X)
 		}
@@ -442,8 +600,9 @@ func (c *fnCtx) expr(e ast.Expr) ex {
 			if v.Parent() == c.g.p.Types.Scope() {
 				unsup("package-level variable %s", v.Name())
 			}
-			if c.fi.optPtr[o] {
-				return ex{c.nameOf(o), true} // dereferencing a nil pointer panics
+			if c.fi.optPtr[o] || c.nilVars[o] {
+				c.rawPtr[c.nameOf(o)] = true
+				return ex{c.nameOf(o), true} // a nilable pointer: using it as a value dereferences it (nil panics)
 			}
 			return ex{c.nameOf(o), false}
 		}
@@ -475,6 +634,16 @@ func (c *fnCtx) expr(e ast.Expr) ex {
 			a := c.expr(x.X)
 			c.g.leanType(sel.Recv())
 			path := c.fieldPath(sel)
+			if c.selNilable(sel) {
+				if a.m {
+					t := "(do (" + a.bind() + ")" + path + ")"
+					c.rawPtr["@"+t] = true // nilable, but only reachable through a computation
+					c.ptrInner[t] = "(" + a.bind() + ")" + path
+					return ex{t, true}
+				}
+				c.rawPtr[a.s+path] = true
+				return ex{a.s + path, true}
+			}
 			if a.m {
 				return ex{"(do pure (" + a.bind() + ")" + path + ")", true}
 			}
@@ -528,6 +697,26 @@ func (c *fnCtx) expr(e ast.Expr) ex {
 	}
 	unsup("expression %T", e)
 	return ex{}
+}
+
+// selNilable: does the selection end in a nilable pointer field?
+func (c *fnCtx) selNilable(sel *types.Selection) bool {
+	t := sel.Recv()
+	idx := sel.Index()
+	for k, i := range idx {
+		if p, ok := t.Underlying().(*types.Pointer); ok {
+			t = p.Elem()
+		}
+		st, ok := t.Underlying().(*types.Struct)
+		if !ok {
+			return false
+		}
+		if k == len(idx)-1 {
+			return nilableField(st, i)
+		}
+		t = st.Field(i).Type()
+	}
+	return false
 }
 
 // fieldPath: `.f_A.f_B` for a (possibly promoted) field selection
@@ -613,13 +802,21 @@ func (c *fnCtx) binary(x *ast.BinaryExpr) ex {
 		}
 		if other != nil {
 			t := c.typeOf(other)
-			if id, ok := other.(*ast.Ident); ok {
-				if o := c.g.p.TypesInfo.Uses[id]; o != nil && c.fi.optPtr[o] {
+			if _, ok := ptrToStruct(t); ok {
+				a := c.expr(other)
+				if inner, ok := c.ptrInner[a.s]; ok {
 					if x.Op == token.EQL {
-						return ex{c.nameOf(o) + ".isNone", false}
+						return ex{"(do pure (" + inner + ").isNone)", true}
 					}
-					return ex{c.nameOf(o) + ".isSome", false}
+					return ex{"(do pure (" + inner + ").isSome)", true}
 				}
+				if !c.rawPtr[a.s] {
+					unsup("nil comparison of a pointer that is not modelled as nilable")
+				}
+				if x.Op == token.EQL {
+					return ex{"(" + a.s + ").isNone", false}
+				}
+				return ex{"(" + a.s + ").isSome", false}
 			}
 			if _, isMap := t.Underlying().(*types.Map); isMap {
 				a := c.expr(other)
@@ -680,7 +877,11 @@ func (c *fnCtx) binary(x *ast.BinaryExpr) ex {
 			f = func(l, r string) string { return "(" + l + " + " + r + ")" }
 		}
 	case token.SUB:
-		f = func(l, r string) string { return "(" + l + " - " + r + ")" }
+		if b, ok := c.typeOf(x.X).Underlying().(*types.Basic); ok && b.Info()&types.IsUnsigned != 0 {
+			f = func(l, r string) string { return "(usub " + l + " " + r + ")" } // unsigned subtraction wraps
+		} else {
+			f = func(l, r string) string { return "(" + l + " - " + r + ")" }
+		}
 	case token.MUL:
 		f = func(l, r string) string { return "(" + l + " * " + r + ")" }
 	default:
@@ -775,9 +976,17 @@ func (c *fnCtx) call(x *ast.CallExpr) ex {
 				return c.pureApp("strLen", a)
 			case *types.Slice:
 				return c.pureApp("len", a)
+			case *types.Map:
+				return c.pureApp("mapLen", a)
 			default:
 				unsup("len of %s", u.String())
 			}
+		case "make":
+			if _, ok := c.typeOf(x).Underlying().(*types.Map); ok {
+				lt := c.g.leanType(c.typeOf(x))
+				return ex{"(some [] : " + lt[1:len(lt)-1] + ")", false}
+			}
+			unsup("make of %s", c.typeOf(x).String())
 		case "append":
 			a := c.expr(x.Args[0])
 			if x.Ellipsis.IsValid() {
@@ -832,6 +1041,11 @@ func (c *fnCtx) call(x *ast.CallExpr) ex {
 		if qual == "fmt.Sprintf" {
 			return ex{"([] : Str)", false} // message text is not modelled
 		}
+		if se.Sel.Name == "Nanoseconds" && len(x.Args) == 0 {
+			if n, ok := c.typeOf(se.X).(*types.Named); ok && n.Obj().Pkg() != nil && n.Obj().Pkg().Path() == "time" && n.Obj().Name() == "Duration" {
+				return c.expr(se.X)
+			}
+		}
 		// time.Time.Unix() on a modelled time value; time.Now().UTC().Unix()
 		if se.Sel.Name == "Unix" && len(x.Args) == 0 {
 			if usesTimeNow(se.X) {
@@ -869,7 +1083,7 @@ func selNameAny(e ast.Expr) string {
 // callFn: application of a translated function (always monadic)
 func (c *fnCtx) callFn(x *ast.CallExpr, fi *fnInfo) ex {
 	args := c.callArgs(x, fi)
-	sig := c.g.p.TypesInfo.Defs[fi.fd.Name].(*types.Func).Type().(*types.Signature)
+	sig := fi.sig
 	nfix := len(fi.params)
 	var parts []string
 	if sig.Variadic() {
@@ -880,7 +1094,19 @@ func (c *fnCtx) callFn(x *ast.CallExpr, fi *fnInfo) ex {
 			parts = append(parts, "([] : Str)") // message text is not modelled
 			continue
 		}
-		parts = append(parts, c.expr(args[i]).bind())
+		a := c.expr(args[i])
+		if fi.optPtr[fi.params[i]] {
+			switch {
+			case c.rawPtr[a.s]:
+				parts = append(parts, a.s)
+			case !a.m:
+				parts = append(parts, "(some "+a.s+")")
+			default:
+				parts = append(parts, "(some "+a.bind()+")")
+			}
+			continue
+		}
+		parts = append(parts, a.bind())
 	}
 	if sig.Variadic() {
 		if x.Ellipsis.IsValid() {
@@ -900,6 +1126,9 @@ func (c *fnCtx) callFn(x *ast.CallExpr, fi *fnInfo) ex {
 	}
 	if fi.usesNow {
 		parts = append(parts, "now")
+	}
+	if fi.usesOpq {
+		parts = append(parts, "opq")
 	}
 	return ex{"(" + fi.leanName + " " + strings.Join(parts, " ") + ")", true}
 }
@@ -949,7 +1178,7 @@ func (c *fnCtx) stateTuple() string {
 func (c *fnCtx) stateType() string {
 	var parts []string
 	for _, o := range c.state {
-		parts = append(parts, c.g.leanType(o.Type()))
+		parts = append(parts, c.varType(o))
 	}
 	switch len(parts) {
 	case 0:
@@ -967,7 +1196,7 @@ func (c *fnCtx) assignVar(b *block, o types.Object, v string) {
 		b.add("%s := %s", n, v)
 	} else {
 		c.declared[o] = true
-		b.add("let mut %s : %s := %s", n, c.g.leanType(o.Type()), v)
+		b.add("let mut %s : %s := %s", n, c.varType(o), v)
 	}
 }
 
@@ -1129,6 +1358,36 @@ func (c *fnCtx) stmt(b *block, s ast.Stmt) {
 			c.stmt(b, x.Init)
 		}
 		cond := c.expr(x.Cond)
+		// an `if` whose branches only update variables (no return / break / continue) is a value: the updated
+		// variables. Emitting it as one bind keeps the definition a flat sequence, which proofs can peel off.
+		if vars, ok := c.ifAsValue(x); ok {
+			tup := tupleOf(c, vars)
+			b.add("let __v ← (if %s then (do", cond.bind())
+			inner := &block{ind: b.ind + 2}
+			c.branch(inner, x.Body.List, vars)
+			inner.add("pure %s)", tup)
+			b.lines = append(b.lines, inner.lines...)
+			b.add("  else (do")
+			inner2 := &block{ind: b.ind + 2}
+			if x.Else != nil {
+				c.branch(inner2, []ast.Stmt{x.Else}, vars)
+			}
+			inner2.add("pure %s))", tup)
+			b.lines = append(b.lines, inner2.lines...)
+			for i, o := range vars {
+				pr := "__v"
+				if len(vars) > 1 {
+					for j := 0; j < i; j++ {
+						pr += ".2"
+					}
+					if i < len(vars)-1 {
+						pr += ".1"
+					}
+				}
+				b.add("%s := %s", c.nameOf(o), pr)
+			}
+			return
+		}
 		b.add("if %s then", cond.bind())
 		inner := &block{ind: b.ind + 1}
 		c.stmts(inner, x.Body.List)
@@ -1151,6 +1410,68 @@ func (c *fnCtx) stmt(b *block, s ast.Stmt) {
 		c.rangeStmt(b, x)
 	default:
 		unsup("statement %T", s)
+	}
+}
+
+// ifAsValue: the variables (declared before the statement) that the branches of an `if` update, when the branches
+// contain no return / break / continue and update at least one
+func (c *fnCtx) ifAsValue(x *ast.IfStmt) ([]types.Object, bool) {
+	escapes := false
+	ast.Inspect(x, func(n ast.Node) bool {
+		switch n.(type) {
+		case *ast.ReturnStmt, *ast.BranchStmt:
+			escapes = true
+		}
+		return true
+	})
+	if escapes {
+		return nil, false
+	}
+	w := c.written(x.Body)
+	if x.Else != nil {
+		for o := range c.written(x.Else) {
+			w[o] = true
+		}
+	}
+	var vars []types.Object
+	for o := range w {
+		if v, ok := o.(*types.Var); ok && c.declared[o] && !(v.Pos() >= x.Pos() && v.Pos() < x.End()) {
+			vars = append(vars, o)
+		}
+	}
+	if len(vars) == 0 {
+		return nil, false
+	}
+	sort.Slice(vars, func(i, j int) bool { return vars[i].Pos() < vars[j].Pos() })
+	return vars, true
+}
+
+func tupleOf(c *fnCtx, vars []types.Object) string {
+	var parts []string
+	for _, o := range vars {
+		parts = append(parts, c.nameOf(o))
+	}
+	if len(parts) == 1 {
+		return parts[0]
+	}
+	return "(" + strings.Join(parts, ", ") + ")"
+}
+
+// branch: the statements of one branch of an `if` emitted as a value; the updated variables are shadowed inside
+func (c *fnCtx) branch(b *block, list []ast.Stmt, vars []types.Object) {
+	for _, o := range vars {
+		b.add("let mut %s := %s", c.nameOf(o), c.nameOf(o))
+	}
+	// variables first declared inside the branch must not stay marked as declared afterwards
+	before := map[types.Object]bool{}
+	for o := range c.declared {
+		before[o] = true
+	}
+	c.stmts(b, list)
+	for o := range c.declared {
+		if !before[o] {
+			delete(c.declared, o)
+		}
 	}
 }
 
@@ -1375,6 +1696,12 @@ func (c *fnCtx) rangeStmt(b *block, x *ast.RangeStmt) {
 	switch u := c.typeOf(x.X).Underlying().(type) {
 	case *types.Slice:
 		keyT, valT = "Int", c.g.leanType(u.Elem())
+		if c.g.nilableElem(u.Elem()) {
+			valT = "(Option " + valT + ")"
+			if id, ok := x.Value.(*ast.Ident); ok && id.Name != "_" {
+				c.nilVars[c.g.p.TypesInfo.Defs[id]] = true
+			}
+		}
 		collS = coll.bind()
 	case *types.Map:
 		keyT, valT = c.g.leanType(u.Key()), c.g.leanType(u.Elem())
@@ -1388,14 +1715,17 @@ func (c *fnCtx) rangeStmt(b *block, x *ast.RangeStmt) {
 	loopName := fmt.Sprintf("%s.loop%d", c.fi.leanName, c.loopN)
 
 	// ---- body definition
-	sub := &fnCtx{g: c.g, fi: c.fi, names: c.names, taken: c.taken, loopN: c.loopN, inLoop: true, state: state, tmpN: c.tmpN,
+	sub := &fnCtx{g: c.g, fi: c.fi, names: c.names, taken: c.taken, loopN: c.loopN, inLoop: true, state: state, tmpN: c.tmpN, rawPtr: c.rawPtr, nilVars: c.nilVars, ptrInner: c.ptrInner,
 		declared: map[types.Object]bool{}}
 	var params []string
 	for _, o := range captured {
-		params = append(params, fmt.Sprintf("(%s : %s)", c.nameOf(o), c.g.leanType(o.Type())))
+		params = append(params, fmt.Sprintf("(%s : %s)", c.nameOf(o), c.varType(o)))
 	}
 	if c.fi.usesNow {
 		params = append(params, "(now : Int)")
+	}
+	if c.fi.usesOpq {
+		params = append(params, "(opq : Opq)")
 	}
 	keyN, valN := "_k", "_v"
 	var keyO, valO types.Object
@@ -1407,7 +1737,7 @@ func (c *fnCtx) rangeStmt(b *block, x *ast.RangeStmt) {
 		valO = c.g.p.TypesInfo.Defs[id]
 		valN = c.nameOf(valO)
 	}
-	stT := (&fnCtx{g: c.g, state: state}).stateType()
+	stT := (&fnCtx{g: c.g, fi: c.fi, nilVars: c.nilVars, state: state}).stateType()
 	body := &block{ind: 1}
 	wBody := w
 	if isMap {
@@ -1476,6 +1806,9 @@ func (c *fnCtx) rangeStmt(b *block, x *ast.RangeStmt) {
 	if c.fi.usesNow {
 		capArgs = append(capArgs, "now")
 	}
+	if c.fi.usesOpq {
+		capArgs = append(capArgs, "opq")
+	}
 	fn := loopName
 	if len(capArgs) > 0 {
 		fn = "(" + loopName + " " + strings.Join(capArgs, " ") + ")"
@@ -1524,7 +1857,7 @@ func (g *fnGen) prepare(fd *ast.FuncDecl, key string) (fi *fnInfo, err string) {
 	}()
 	fn := g.p.TypesInfo.Defs[fd.Name].(*types.Func)
 	sig := fn.Type().(*types.Signature)
-	fi = &fnInfo{key: key, fd: fd, leanName: strings.ReplaceAll(key, ".", "_")}
+	fi = &fnInfo{key: key, fd: fd, leanName: strings.ReplaceAll(key, ".", "_"), sig: sig, hasRecv: sig.Recv() != nil}
 	if sig.Recv() != nil {
 		fi.params = append(fi.params, sig.Recv())
 	}
@@ -1545,7 +1878,7 @@ func (g *fnGen) prepare(fd *ast.FuncDecl, key string) (fi *fnInfo, err string) {
 
 func genFns(infos []pkgInfo) (string, string, map[string]string) {
 	var ov strings.Builder
-	ov.WriteString("import JwtModel.Gen.Fn\nimport JwtModel.Validate\n/-! GENERATED by /verif/extract (gofn.go). Do not edit.\n\nReading the struct mirrors of `Gen/Fn.lean` out of model values (`Val`) through the JSON keys of the Go struct tags. -/\nnamespace Jwt.Gen.Fn\nopen Jwt Jwt.Codec Jwt.GoRt\n\ndef mapOfVal (v : Val) : GoMap Str Int :=\n  match v with\n  | .map m => some (m.map fun p => (p.1, p.2.asInt))\n  | _ => none\n\n")
+	ov.WriteString("import JwtModel.Gen.Fn\nimport JwtModel.Validate\n/-! GENERATED by /verif/extract (gofn.go). Do not edit.\n\nReading the struct mirrors of `Gen/Fn.lean` out of model values (`Val`) through the JSON keys of the Go struct tags. -/\nnamespace Jwt.Gen.Fn\nopen Jwt Jwt.Codec Jwt.GoRt\n\n/-- a nilable pointer to a struct: `Val.ptr x` is non-nil -/\ndef optOfVal {α : Type} (f : Val → α) (v : Val) : Option α :=\n  match v with\n  | .ptr x => some (f x)\n  | _ => none\n\ndef mapOfVal (v : Val) : GoMap Str Int :=\n  match v with\n  | .map m => some (m.map fun p => (p.1, p.2.asInt))\n  | _ => none\n\n")
 	var out strings.Builder
 	out.WriteString("import JwtModel.GoRt\n/-! GENERATED by /verif/extract (gofn.go) from /repo's working tree on every run. Do not edit.\n\n" +
 		"Statement-by-statement translations of a whitelisted set of Go functions into the `Option` monad\n(`none` = run-time panic); vocabulary: JwtModel/GoRt.lean. -/\nset_option linter.unusedVariables false\nnamespace Jwt.Gen.Fn\nopen Jwt Jwt.GoRt\n\n")
@@ -1583,7 +1916,7 @@ func genFns(infos []pkgInfo) (string, string, map[string]string) {
 			changed = false
 			for _, k := range keys {
 				fi := g.fns[k]
-				c := &fnCtx{g: g, fi: fi, names: map[types.Object]string{}, taken: map[string]bool{}}
+				c := &fnCtx{g: g, fi: fi, names: map[types.Object]string{}, taken: map[string]bool{}, rawPtr: map[string]bool{}, nilVars: map[types.Object]bool{}, ptrInner: map[string]string{}}
 				w := c.written(fi.fd.Body)
 				for i, p := range fi.params {
 					if !w[p] || fi.mutated[i] {
@@ -1599,6 +1932,30 @@ func genFns(infos []pkgInfo) (string, string, map[string]string) {
 						}
 					}
 				}
+			}
+		}
+		// time.Now and opaque callees propagate to callers
+		for changed := true; changed; {
+			changed = false
+			for _, k := range keys {
+				fi := g.fns[k]
+				ast.Inspect(fi.fd.Body, func(n ast.Node) bool {
+					call, ok := n.(*ast.CallExpr)
+					if !ok {
+						return true
+					}
+					cal := g.callee(call)
+					if cal == nil {
+						return true
+					}
+					if (cal.fd == nil || cal.usesOpq) && !fi.usesOpq {
+						fi.usesOpq, changed = true, true
+					}
+					if cal.usesNow && !fi.usesNow {
+						fi.usesNow, changed = true, true
+					}
+					return true
+				})
 			}
 		}
 		// emit, callees before callers (whitelist order is the emission order; calls to later ones are unsupported)
@@ -1620,13 +1977,20 @@ func genFns(infos []pkgInfo) (string, string, map[string]string) {
 			fmt.Fprintf(&out, "structure T_%s where\n", n)
 			for i := 0; i < st.NumFields(); i++ {
 				f := st.Field(i)
-				lt, z := safeType(g, f.Type())
+				lt, z := g.fieldLean(st, i)
 				if lt == "" {
 					continue
 				}
 				fmt.Fprintf(&out, "  f_%s : %s := %s\n", f.Name(), lt, z)
 			}
 			fmt.Fprintf(&out, "  deriving Inhabited, DecidableEq\n\n")
+		}
+		if len(g.opqOrd) > 0 {
+			out.WriteString("/-- package functions that translated code calls but that are not translated themselves: their behaviour is a\nparameter (tie theorems instantiate it with the model's function) -/\nstructure Opq where\n")
+			for _, k := range g.opqOrd {
+				fmt.Fprintf(&out, "  %s : %s\n", strings.ReplaceAll(k, ".", "_"), g.opqFieldType(g.opaque[k]))
+			}
+			out.WriteString("\n")
 		}
 		out.WriteString(body.String())
 		ov.WriteString("namespace " + pi.short + "\n\n")
@@ -1681,6 +2045,8 @@ func (g *fnGen) ofVal(name string) string {
 		_, isPtr := f.Type().Underlying().(*types.Pointer)
 		var val string
 		switch {
+		case isPtr && nilableField(st, i) && strings.HasPrefix(lt, "T_"):
+			val = "optOfVal " + lt + ".ofVal " + src
 		case isPtr:
 			continue
 		case lt == "Str":
@@ -1773,13 +2139,13 @@ func (g *fnGen) emit(fi *fnInfo, emitted map[string]bool) (text string, err stri
 	// calls must go to already emitted functions
 	ast.Inspect(fi.fd.Body, func(n ast.Node) bool {
 		if call, ok := n.(*ast.CallExpr); ok {
-			if cal := g.callee(call); cal != nil && !emitted[cal.key] {
+			if cal := g.callee(call); cal != nil && cal.fd != nil && !emitted[cal.key] {
 				unsup("calls %s, which is not translated (yet)", cal.key)
 			}
 		}
 		return true
 	})
-	c := &fnCtx{g: g, fi: fi, names: map[types.Object]string{}, taken: map[string]bool{}, declared: map[types.Object]bool{}}
+	c := &fnCtx{g: g, fi: fi, names: map[types.Object]string{}, taken: map[string]bool{}, declared: map[types.Object]bool{}, rawPtr: map[string]bool{}, nilVars: map[types.Object]bool{}, ptrInner: map[string]string{}}
 	// return type
 	var rts []string
 	for i, m := range fi.mutated {
@@ -1812,6 +2178,9 @@ func (g *fnGen) emit(fi *fnInfo, emitted map[string]bool) (text string, err stri
 	}
 	if fi.usesNow {
 		params = append(params, "(now : Int)")
+	}
+	if fi.usesOpq {
+		params = append(params, "(opq : Opq)")
 	}
 	c.stmts(b, fi.fd.Body.List)
 	// falling off the end
